@@ -230,8 +230,12 @@ def typed_arguments(prog, rep):
     tg = prog.func("q2_typecheck.g")
     checked = None
     for n in walk_with_nested_exprs(tg.node):
-        if isinstance(n, ast.Compare) and len(n.ops) == 1 and isinstance(n.ops[0], ast.In) and norm(n.left).endswith(".annotation") and isinstance(n.comparators[0], (ast.List, ast.Tuple, ast.Set)):
-            checked = {norm(x) for x in n.comparators[0].elts}
+        if isinstance(n, ast.Compare) and len(n.ops) == 1 and isinstance(n.ops[0], (ast.In, ast.NotIn)) and norm(n.left).endswith(".annotation"):
+            coll = n.comparators[0]
+            if isinstance(coll, ast.Name):
+                coll = tg.mod.consts.get(coll.id, coll)
+            if isinstance(coll, (ast.List, ast.Tuple, ast.Set)):
+                checked = {norm(x) for x in coll.elts}
     if checked is None:
         rep.undecided("ARG-TYPED", "q2_typecheck.g", "checked annotation set", "no `<param>.annotation in [<types>]` test found in the typecheck wrapper", tg.loc())
         return
